@@ -82,7 +82,8 @@ class MessageHandler(Virtual):
     def getentry(self, message=None):
         """Set the message if called from, eg, the dir handler.  Saves
         having to rescan the file.  If not set, will figure it out."""
-        if not message:
+        if message is None:
+            # (a message without any header is false, but it is a message)
             message = self.getmessage()
 
         if not self.entry:
@@ -184,6 +185,16 @@ class MBoxMessageHandler(MessageHandler):
         return mbox(self.getfspath(), create=False)
 
 
+class MessageFiles(Maildir):
+    """A Maildir whose messages are the message files only.  mailbox.Maildir
+    takes every file in new/ and cur/ for a message, dot-files included -
+    such as the cache file this server writes there when somebody asks for a
+    listing of that sub-directory."""
+
+    def iterkeys(self):
+        return (key for key in super().iterkeys() if not key.startswith("."))
+
+
 class MaildirFolderHandler(FolderHandler):
     def canhandlerequest(self):
         if type(self.vfs) is not VFS_Real:
@@ -197,7 +208,7 @@ class MaildirFolderHandler(FolderHandler):
         )
 
     def prepare(self):
-        self.mbox = Maildir(self.getfspath(), create=False)
+        self.mbox = MessageFiles(self.getfspath(), create=False)
         super().prepare()
 
     def getargflag(self):
@@ -209,4 +220,4 @@ class MaildirMessageHandler(MessageHandler):
         return "/MAILDIR-MESSAGE/"
 
     def openmailbox(self):
-        return Maildir(self.getfspath(), create=False)
+        return MessageFiles(self.getfspath(), create=False)
